@@ -28,6 +28,22 @@ open PyR GenR.Survey GenR.Convert
 
 /-! ### joins / radiations / rect2polar -/
 
+/-- the guard `if theta >= 360: theta = 0.0` (fix 2b… in /repo: in binary64 `degrees(theta) + 360` rounds to 360.0 for a direction less
+than half an ulp west of north) is never taken in exact arithmetic: for `θ < 0` the sum is below 360.  So over ℝ `rect2polar` is the
+two-branch expression it was before the guard. -/
+theorem rect2polar_eq (x y : ℝ) :
+    rect2polar x y =
+      (PyR.sqrt (PyR.pown x 2 + PyR.pown y 2),
+       if PyR.atan2 x y < 0 then PyR.degrees (PyR.atan2 x y) + 360 else PyR.degrees (PyR.atan2 x y)) := by
+  unfold rect2polar
+  by_cases h : PyR.atan2 x y < 0
+  · have hd : PyR.degrees (PyR.atan2 x y) < 0 := by
+      simp only [degrees_def]
+      exact mul_neg_of_neg_of_pos h (by positivity)
+    have hg : ¬ (PyR.degrees (PyR.atan2 x y) + 360 ≥ 360) := by linarith
+    simp only [if_pos h, if_neg hg]
+  · simp only [if_neg h]
+
 /-- rect2polar returns the Euclidean norm and an angle whose sin/cos reproduce the vector. -/
 theorem rect2polar_spec (x y : ℝ) :
     (rect2polar x y).1 = Real.sqrt (x ^ 2 + y ^ 2) ∧
@@ -39,7 +55,7 @@ theorem rect2polar_spec (x y : ℝ) :
   have hc := Complex.norm_mul_cos_arg (⟨y, x⟩ : ℂ)
   rw [hn] at hs hc
   simp only at hs hc
-  unfold rect2polar
+  rw [rect2polar_eq]
   simp only [sqrt_def, pown_def, atan2_def]
   refine ⟨trivial, ?_, ?_⟩ <;> split_ifs <;>
     simp only [radians_add, radians_degrees, radians_360, Real.sin_add_two_pi, Real.cos_add_two_pi] <;>
@@ -78,7 +94,7 @@ theorem bearing_range (x y : ℝ) :
   have d3 : PyR.degrees (-Real.pi) = -180 := by
     simp only [degrees_def]; field_simp
   rw [d3] at d1
-  unfold rect2polar
+  rw [rect2polar_eq]
   simp only [atan2_def]
   split_ifs with h
   · have d4 := degrees_lt _ h
@@ -90,14 +106,16 @@ theorem bearing_range (x y : ℝ) :
 
 theorem bearing_north (y : ℝ) (hy : 0 < y) : (rect2polar 0 y).2 = 0 := by
   have h : Complex.arg (⟨y, 0⟩ : ℂ) = 0 := Complex.arg_ofReal_of_nonneg hy.le
-  unfold rect2polar
+  rw [rect2polar_eq]
+  simp only [atan2_def]
   simp only [h, lt_irrefl, if_false, degrees_zero]
 
 theorem bearing_east (x : ℝ) (hx : 0 < x) : (rect2polar x 0).2 = 90 := by
   have h : Complex.arg (⟨0, x⟩ : ℂ) = Real.pi / 2 :=
     Complex.arg_eq_pi_div_two_iff.mpr ⟨rfl, hx⟩
   have hp : ¬ (Real.pi / 2 < 0) := not_lt.mpr (by positivity)
-  unfold rect2polar
+  rw [rect2polar_eq]
+  simp only [atan2_def]
   simp only [h, hp, if_false, degrees_def]
   field_simp
   norm_num
@@ -237,7 +255,8 @@ theorem radiate_join (e n brg dist : ℝ) (hb0 : 0 ≤ brg) (hb1 : brg < 360) (h
       have := Real.sin_sq_add_cos_sq (PyR.radians brg)
       linear_combination dist ^ 2 * this
     rw [this, Real.sqrt_sq hd.le]
-  unfold joins radiations polar2rect rect2polar
+  unfold joins radiations polar2rect
+  simp only [rect2polar_eq]
   simp only [sin_def, cos_def, add_zero, mul_one, add_sub_cancel_left, sqrt_def, pown_def,
     atan2_def, hr]
   by_cases hb : brg ≤ 180
